@@ -8,7 +8,7 @@ ID = 'C18'
 RULE = ('truth tables: exhaustive 2^16 byte pairs for ct_eq/ct_ne and all 256 bytes for ct_zero/ct_nonzero (bitmaps); all pairs over a 64-bit boundary set plus random for the '
         'eight u64 predicates; byte arrays N = 0..=40 equal / differing in exactly one position (every position, both directions) plus borrow-rippling patterns for ct_lt/ct_ge '
         '(big-endian order); slices and u64 arrays likewise; Choice algebra, CtOption and the selectors for Choices produced along 16 routes (from a test, negated, double negated, from integer / array / slice comparisons, from and/or/xor); masked swap/set of u64 and i32 limb arrays (hook) for both choices; MacResult / Tag '
-        'equality incl. unequal lengths; byte arrays and Tags stored at every pair of byte offsets 0..7 / 0..15 of aligned buffers; distinct = (helper, operand pattern)')
+        'equality incl. unequal lengths and codes of 65..1000 bytes; byte arrays and Tags stored at every pair of byte offsets 0..7 / 0..15 of aligned buffers; distinct = (helper, operand pattern)')
 ASSUMPTIONS = ["Python's ==, <, <=, >, >= on integers and bytes"]
 FLOORS = {'evaluations': 8000, 'distinct': 6000}
 THOROUGH_ROUNDS = 300   # thorough tier: generator passes with derived seeds (runner.gen_rounds)
@@ -135,6 +135,14 @@ def gen(tier, seed):
             yield 'macres_eq %s %s #macres-lendiff' % (t.hex(), t[:-1].hex() or '-')
             yield 'macres_eq %s %s #macres-lendiff' % (t.hex(), (t + b'\0').hex())
             yield 'macres_eq %s %s #macres-lendiff' % (t[:-1].hex() or '-', t.hex())
+    # codes longer than any MAC of the crate (MacResult accepts any length): equal, and differing in one byte at every position class
+    for n in (65, 66, 100, 128, 129, 255, 256, 257, 300, 1000):
+        t = rng.bytes(n)
+        yield 'macres_eq %s %s #macres-long-equal' % (t.hex(), t.hex())
+        for pos in sorted(set([0, 1, 31, 32, 63, 64, 65, n // 2, n - 2, n - 1] + [rng.below(n) for _ in range(6)])):
+            if pos < n:
+                x = bytearray(t); x[pos] ^= 1 << rng.below(8)
+                yield 'macres_eq %s %s #macres-long-onepos' % (t.hex(), bytes(x).hex())
     for n, d in ((0, 256), (1, 256), (16, 256), (32, 256), (32, 512), (20, 768), (64, 65536), (0, 65536)):
         t = rng.bytes(n)
         for tail in (bytes(d), rng.bytes(d)):
